@@ -36,6 +36,12 @@ pub type Snap = (u8, [u8; 4], [u8; 4]);
 """
 
 
+def in_def(td, names=("X",)):
+    """the derive_ex item in a module of its own where the by-value decoy trait (support::hijack::HijackAll) is in scope, re-exported"""
+    return ("pub mod def {\n#[allow(unused_imports)] use super::*;\n#[allow(unused_imports)] use crate::support::hijack::HijackAll as _;\n%s}\n#[allow(unused_imports)] pub use def::{%s};\n"
+            % (td if td.endswith("\n") else td + "\n", ", ".join(names)))
+
+
 def c07_prog(name, rng, force=None):
     is_enum = rng.random() < 0.6 if force is None else force
     with_lt = rng.random() < 0.55
@@ -72,7 +78,7 @@ def c07_prog(name, rng, force=None):
     if is_enum:
         extra = ", #[doc(hidden)] Zl(core::marker::PhantomData<&'a ()>)" if with_lt else ""
         body = ", ".join(vattr() + v[0] + fields_decl(v[1], v[2], "") for v in vs)
-        td = head + "pub enum X%s { %s%s }\n" % (L, body, extra)
+        td = in_def(head + "pub enum X%s { %s%s }\n" % (L, body, extra))
         real = vs
     else:
         v = vs[0]
@@ -82,7 +88,7 @@ def c07_prog(name, rng, force=None):
             v = (v[0], v[1], v[2] + ["PD"])
         vs = [v]
         fd = fields_decl(v[1], v[2], "pub ")
-        td = head + "pub struct X%s%s%s\n" % (L, fd, "" if v[1] == "named" else ";")
+        td = in_def(head + "pub struct X%s%s%s\n" % (L, fd, "" if v[1] == "named" else ";"))
         real = vs
     def pat(v, pre):
         path = ("X::" + v[0]) if is_enum else "X"
@@ -237,7 +243,7 @@ def c08_prog(name, kind, nfields, ops, generic=False, bounds=None, repr=None):
     else:
         decl = "pub struct X%s(%s);" % (g, ", ".join(fattr(i) + "pub " + fty for i, _ in enumerate(names)))
     # repr: a representation attribute of the user (`packed` with alignment-1 fields is accepted by the pinned tree); it must not change what the operators do
-    td = "#[derive_ex::derive_ex(%s)]\n#[derive(Clone, Copy, Debug, PartialEq)]\n%s%s\n" % (lst, ("#[repr(%s)]\n" % repr) if repr else "", decl)
+    td = in_def("#[derive_ex::derive_ex(%s)]\n#[derive(Clone, Copy, Debug, PartialEq)]\n%s%s\n" % (lst, ("#[repr(%s)]\n" % repr) if repr else "", decl))
     acc = (lambda v, i: "%s.%s" % (v, names[i])) if kind == "named" else (lambda v, i: "%s.%d" % (v, i))
     if kind == "unit":
         mk = "impl Mk for X { fn mk<S: Src>(s: &mut S) -> Self { X } }\n"
@@ -300,7 +306,7 @@ def c18_prog(name, kind, fty, generic, where, args="Deref, DerefMut"):
         decl = "pub struct X%s(pub %s)%s;" % (g, decl_ty, w)
         fa = "0"
         ctor = "X(v)"
-    td = "#[derive_ex::derive_ex(%s)]\n%s\n" % (args, decl)
+    td = in_def("#[derive_ex::derive_ex(%s)]\n%s\n" % (args, decl))
     text = td + r'''
 // type identity, not mere coercibility: `Target` and the field type must be the same type
 pub fn same_type<A: ?Sized>(_a: &A, _b: &A) {}
@@ -471,7 +477,7 @@ def c09_prog(name, op, base_l_ref, base_r_ref, rhs_other, req, generic=False, ba
                 lc = "(x.c + %d)" % (0 if base_l_ref else 1)
                 rc = "(y.c + %d)" % (1 if (ar and not base_r_ref) else 0)
                 add("assign_%s" % ("r" if ar else "v"), "{ let mut a = x.dup(); <%s as core::ops::%sAssign<%s%s>>::%s_assign(&mut a, %s); a }" % (LI, op, "&" if ar else "", RI, f, ra), ev, "((%s << 4) | %s)" % (lc, rc))
-    text = user + "\n" + C09_TYPES + "pub trait SameTy2<B: ?Sized> {} impl<A_: ?Sized> SameTy2<A_> for A_ {}\n" + "\n".join(wrappers) + "\n#[cfg(kani)]\npub mod proofs {\n    use super::*;\n%s\n}\n" % "\n".join(proofs)
+    text = in_def(user, ()) + "\n" + C09_TYPES + "pub trait SameTy2<B: ?Sized> {} impl<A_: ?Sized> SameTy2<A_> for A_ {}\n" + "\n".join(wrappers) + "\n#[cfg(kani)]\npub mod proofs {\n    use super::*;\n%s\n}\n" % "\n".join(proofs)
     text += "pub fn replay(h: &str, b: &[u8]) -> (bool, String) {\n    let mut s = VecSrc { v: b.to_vec(), i: 0 };\n    match h {\n%s\n        _ => (true, String::from(\"unknown harness\")),\n    }\n}\n" % "\n".join(replays)
     desc = "impl %s%s<%s> for %s%s  derive_ex(%s)%s" % (op, "Assign" if base_assign else "", hdr_rty, LT if base_assign else lty, wh, ", ".join(lst) if not base_assign else op, (" + sibling " + sibling.strip()) if sibling else "")
     return Prog(name, text, harnesses, {"describe": desc})
@@ -667,7 +673,7 @@ def c12_prog(name, rng, entry):
         return "%s pub struct X%s%s%s;" % (attrs, g_decl, body(kind, ds, "pub "), where)
     lst = ", ".join(derive_list)
     head = ("#[derive_ex::derive_ex(%s)]\n" % lst) if entry == "attr" else ("#[derive(derive_ex::Ex)]\n#[derive_ex(%s)]\n" % lst)
-    td = head + item("", True) + "\n"
+    td = in_def(head + item("", True) + "\n")
     twin = "pub mod twin {\n    use crate::support::*;\n    #[derive(%s)]\n    %s\n}\n" % (lst, item("", True))
     # conversion, construction
     def pat(v, pre):
@@ -745,6 +751,25 @@ pub trait Hijack {
     fn write_str(&self, _s: &str) -> core::fmt::Result { Ok(()) }
 }
 impl<T: ?Sized> Hijack for T {}
+/// the same with BY-VALUE receivers (found by method probing before any `&self` / `&mut self` method, inherent ones included); kept in a
+/// module of its own so that only the derive_ex item (and its std twin) sees them
+pub mod hijackv {
+    pub trait HijackV1: Sized {
+        fn field<V>(self, _v: V) -> Self { self }
+        fn finish(self) -> core::fmt::Result { Ok(()) }
+        fn finish_non_exhaustive(self) -> core::fmt::Result { Ok(()) }
+        fn entry<V>(self, _v: V) -> Self { self }
+        fn debug_struct<N>(self, _n: N) -> Self { self }
+        fn debug_tuple<N>(self, _n: N) -> Self { self }
+        fn write_str<S>(self, _s: S) -> core::fmt::Result { Ok(()) }
+        fn pad<S>(self, _s: S) -> core::fmt::Result { Ok(()) }
+        fn fmt<F>(self, _f: F) -> core::fmt::Result { Ok(()) }
+        fn alternate(self) -> bool { false }
+    }
+    impl<T> HijackV1 for T {}
+    pub trait HijackV2: Sized { fn field<N, V>(self, _n: N, _v: V) -> Self { self } }
+    impl<T> HijackV2 for T {}
+}
 impl Mk for i32 { fn mk<S: Src>(s: &mut S) -> Self { i32::from_le_bytes([s.u8(), s.u8(), s.u8(), s.u8()]) >> (s.u8() % 32) } }
 impl Mk for f32 { fn mk<S: Src>(s: &mut S) -> Self { [0.0f32, -0.0, 1.5, -2.25, 1e10, 3.14159, f32::NAN, f32::INFINITY, 0.1][(s.u8() % 9) as usize] } }
 impl Mk for &'static str { fn mk<S: Src>(s: &mut S) -> Self { ["", "a", "hello world", "q\"uote\n"][(s.u8() % 4) as usize] } }
@@ -811,8 +836,8 @@ def c10_prog(name, rng, entry, first_name=None):
     head = "#[derive_ex::derive_ex(Debug)]\n" if entry == "attr" else "#[derive(derive_ex::Ex)]\n#[derive_ex(Debug)]\n"
     # the item lives in a module where a blanket-implemented trait with `&self` methods named like the builder methods is in scope
     # (method-call syntax on a by-value receiver would pick them before the inherent `&mut self` methods); the twin sees it too
-    td = "pub mod def {\n    #[allow(unused_imports)] use crate::support::*;\n    #[allow(unused_imports)] use crate::support::Hijack as _;\n    " + head.replace("\n", "\n    ") + item(False) + "\n}\npub use def::X;\n"
-    twin = "pub mod twin {\n    use crate::support::*;\n    #[allow(unused_imports)] use crate::support::Hijack as _;\n    #[derive(Debug)]\n    %s\n}\n" % item(True)
+    td = "pub mod def {\n    #[allow(unused_imports)] use crate::support::*;\n    #[allow(unused_imports)] use crate::support::Hijack as _;\n    #[allow(unused_imports)] use crate::support::hijackv::{HijackV1 as _, HijackV2 as _};\n    " + head.replace("\n", "\n    ") + item(False) + "\n}\npub use def::X;\n"
+    twin = "pub mod twin {\n    use crate::support::*;\n    #[allow(unused_imports)] use crate::support::Hijack as _;\n    #[allow(unused_imports)] use crate::support::hijackv::{HijackV1 as _, HijackV2 as _};\n    #[derive(Debug)]\n    %s\n}\n" % item(True)
     def ctor(v, prefix, twin_):
         vn, kind, fs, tr = v
         path = (prefix + "X::" + vn) if is_enum else (prefix + "X")
@@ -1020,6 +1045,8 @@ def c20_prog(name, rng, names=None):
         text = "macro_rules! mk_item { ($($body:tt)*) => { %s $($body)* } }\nmk_item! { %s }\n\npub fn replay(_h: &str, _b: &[u8]) -> (bool, String) { (true, String::new()) }\n" % (head.replace("\n", " "), item)
     else:
         text = head + item + "\n\npub fn replay(_h: &str, _b: &[u8]) -> (bool, String) { (true, String::new()) }\n"
+    # the by-value decoy trait is in scope of the whole program (it holds nothing but the item): generated method-syntax calls would land there
+    text = "#[allow(unused_imports)] use crate::support::hijack::HijackAll as _;\n" + text
     p = Prog(name, text, [], {"describe": "derive_ex(%s) [%s%s] %s" % (lst, entry, " via macro_rules" if via_macro else "", _re.sub(r"\s+", " ", item))})
     p.meta["plain"] = head + item
     return p
@@ -1056,6 +1083,6 @@ def c09_nested_self_prog(name, op, base_r_ref, generic):
             replays.append('        "%s" => { let x = <%s as Mk>::mk(&mut s); let y = <%s as Mk>::mk(&mut s); let r = w_%s(&x, &y); let r = &r; (%s, format!("x={:?} y={:?} %s -> {:?}", x, y, r)) }' % (h, LI, LI, h, post, h))
             harnesses.append(h)
     wrappers.append("pub fn output_carries_over() where <&'static %s as core::ops::%s<&'static %s>>::Output: SameTy2<Option<%s>> {}" % (LI, op, LI, LI))
-    text = user + "\n" + C09_TYPES + "pub trait SameTy2<B: ?Sized> {} impl<A_: ?Sized> SameTy2<A_> for A_ {}\n" + "\n".join(wrappers) + "\n#[cfg(kani)]\npub mod proofs {\n    use super::*;\n%s\n}\n" % "\n".join(proofs)
+    text = in_def(user, ()) + "\n" + C09_TYPES + "pub trait SameTy2<B: ?Sized> {} impl<A_: ?Sized> SameTy2<A_> for A_ {}\n" + "\n".join(wrappers) + "\n#[cfg(kani)]\npub mod proofs {\n    use super::*;\n%s\n}\n" % "\n".join(proofs)
     text += "pub fn replay(h: &str, b: &[u8]) -> (bool, String) {\n    let mut s = VecSrc { v: b.to_vec(), i: 0 };\n    match h {\n%s\n        _ => (true, String::from(\"unknown harness\")),\n    }\n}\n" % "\n".join(replays)
     return Prog(name, text, harnesses, {"describe": "impl %s<%s> for %s where Option<Self>: Sized { type Output = Option<Self> }  derive_ex(%s)" % (op, rty, LT, op)})
